@@ -80,6 +80,17 @@ def c07 (cmd : String) (args : List String) : String :=
         | none => "E"
       | none => bad
     | _, _, _, _ => bad
+  | "pct", [total, off, p] =>
+    -- LIMIT p PERCENT OFFSET off on `total` rows: how many rows survive
+    match total.toNat?, off.toNat?, parseF p with
+    | some total, some off, some p =>
+      let afterOff := total - off
+      -- View.Limit takes the percentage of RecordLen() + view.offset
+      let base := afterOff + off
+      match limitPercent base p with
+      | some k => toString (min k afterOff)
+      | none => "E"
+    | _, _, _ => bad
   | _, _ => bad
 
 end Csvq.Drive
